@@ -4,6 +4,7 @@
 package core
 
 import (
+	"bytes"
 	"encoding/json"
 	"fmt"
 	"math/rand"
@@ -336,6 +337,7 @@ type ChildResult struct {
 	ExitCode int
 	TimedOut bool
 	Output   string // combined output (tail, up to 64KiB)
+	Death    string // excerpt of the output starting at the first "panic:" / "fatal error:" / fault line (empty if none)
 	Err      error
 }
 
@@ -382,7 +384,32 @@ func RunChild(bin string, args []string, env []string, timeout time.Duration, ou
 		res.ExitCode = cmd.ProcessState.ExitCode()
 	}
 	res.Output = tailFile(outFile, 64<<10)
+	if res.ExitCode != 0 || res.TimedOut {
+		res.Death = deathExcerpt(outFile, 12<<10)
+	}
 	return res
+}
+
+// deathExcerpt returns up to n bytes of the file starting at the first line that announces a crash of a Go process.
+func deathExcerpt(path string, n int) string {
+	data, err := os.ReadFile(path)
+	if err != nil {
+		return ""
+	}
+	first := -1
+	for _, marker := range []string{"panic: ", "fatal error: ", "unexpected fault address", "SIGSEGV", "SIGBUS", "SIGQUIT: quit"} {
+		if i := bytes.Index(data, []byte(marker)); i >= 0 && (first < 0 || i < first) {
+			first = i
+		}
+	}
+	if first < 0 {
+		return ""
+	}
+	end := first + n
+	if end > len(data) {
+		end = len(data)
+	}
+	return string(data[first:end])
 }
 
 func tailFile(path string, n int64) string {
